@@ -59,9 +59,12 @@ fn main() {
          rip_text / igs_text (exhaustive): every command with a text part (RIP: T @ $ 1M 1t 1W 1I 1U 1D 1ESC 1R 1F 9ESC; IGS: W N X < and plain text) x {fresh, preamble} x text lengths \
          {0,1,2,127,128,129,130,255,256,257,260,1000} x filler alphabets {ASCII, Latin-1 letters, characters above U+00FF, control characters, the emulation's own terminator / escape / separator characters} \
          x {as is, one ASCII character in front}. Texts are sequences of chars (not bytes); the random parts draw the same kind of long texts in 1 of 10 text positions. \
+         rip_buttons (exhaustive): RIP_BUTTON_STYLE with label orientation 02 and {no flag, every single bit of both flag fields, all bits, every pair with the underline-hot-key bit, each also with the highlight-hot-key bit} x sizes / bevel {default,0,1,max} x 6 (hot key, text) pairs, \
+         plus 8 flag sets around the hot-key bits x hot key {0,'A','x','#',0x7F,0x80,0xE9,0xFF,ZZ} x label {ASCII, Latin-1 with those hot keys, above U+00FF, empty, text variable, single e-acute} x 9 text layouts (0..=4 `<>` separators, icon / host-command slots empty and filled). \
+         rip_styles (exhaustive): font 0..=11 x direction x size {1,4,10} x write mode 0..=4 x {T, @ near the lower right corner} x 5 alphabets x {3, 130 characters}. \
          rip_fill_states / igs_fill_states (exhaustive): canvas preparations {fresh; filled box / outline or line / ellipse in pens incl. 0 and the background pen, placed inside, touching each edge and corner, crossing the lower / right edge, \
          covering the screen and more; the same after a viewport (RIP) / resolution (IGS) change} x fill colour {0,(1),2,15} x fill pattern {solid, pattern} x {flood fill from 13 seed points (inside, just outside, every edge row / column, the corners, \
-         one beyond the lower and the right edge; RIP: border = the shape's pen or an absent colour), get / put / copy of the shape in replace and XOR mode followed by a fill}. The random parts insert such prepare-choose-fill groups (1 group in 12). \
+         one beyond the lower and the right edge; RIP: border = the shape's pen or an absent colour), get / put / copy of the shape in replace and XOR mode followed by a fill}. The random parts insert such prepare-choose-fill groups, button style (random flag bits) + button groups and font / write mode / text groups (about 1 group in 5 is one of these). \
          rip_random / igs_random: 1..=10 segments, fields from {0,1,small,canvas edges,max,random}, truncated / over-long / punctuated / lower-case parameter lists, continuation lines, text variables, \
          unknown commands, plain text and ANSI between commands, chained and line-separated commands, loops with chain-gang targets, signed and empty IGS parameters up to 99999. \
          Oracles: no panic (key = panic signature); no abort (abort|signal|family); one command <= 0.5 s CPU per 64 bytes (work.cpu|family; a segment is killed after 0.8 s CPU); no sleeping \
@@ -121,6 +124,17 @@ fn main() {
     let mult = spread_multiplier(total);
     let k9 = known.clone();
     eng.enumerated(iso("igs_text", 0, 0).exhaustive(true), total, move |i| igs::texts_case(i * mult % total), move |c| igs::check(c, &k9));
+
+    // ---- style-then-draw pairs: the flag bits of the style are a table dimension
+    let rb = Arc::new(rip::Buttons::new());
+    let total = rb.total();
+    let mult = spread_multiplier(total);
+    let k12 = known.clone();
+    eng.enumerated(iso("rip_buttons", 0, 0).exhaustive(true), total, move |i| rb.case(i * mult % total), move |c| rip::check(c, &k12));
+    let total = rip::styles_total();
+    let mult = spread_multiplier(total);
+    let k13 = known.clone();
+    eng.enumerated(iso("rip_styles", 0, 0).exhaustive(true), total, move |i| rip::styles_case(i * mult % total), move |c| rip::check(c, &k13));
 
     // ---- content-dependent commands on prepared canvases
     let total = rip::fill_states_total();
